@@ -172,6 +172,12 @@ def run(ctx):
             d2 = sibling(doc)
             one(render_doc(d2), "generated:sibling", d2)
             res.count("siblings")
+    # small scope, exhaustively: every document of up to three statements over a vocabulary of related names
+    from . import decsmall
+
+    for doc in decsmall.docs(3, (seed % 16, 16) if tier == "quick" else (0, 1)):
+        one(render_doc(doc), "small-scope", doc)
+        res.count("small_scope_documents")
     # every EvtGen name as a daughter of a conjugated table (thorough: all; quick: a slice)
     sweep = [n for n in names_all if gen.safe_label(n)]
     if tier == "quick":
